@@ -173,6 +173,9 @@ pub enum Repr {
     NonContigLookupCtor,
     /// the same, converted back with `into_non_contiguous_categorical()`
     NonContigLookupBack,
+    /// like `NonContig`, but the symbol table is read in two pages: `take(k)` and `skip(k)`
+    /// (iterator adaptors go through `nth`, which an iterator type may override)
+    NonContigPaged,
 }
 
 #[derive(Clone, Debug, Serialize, Deserialize, PartialEq)]
@@ -300,8 +303,10 @@ pub trait SymT: Copy + 'static {
     fn to_i64(self) -> i64;
 }
 impl SymT for usize {
+    /// negative values arrive the way a `-1` sentinel does in user code: `x as usize`
+    /// (`usize::MAX`, ...); such values are never inside a support
     fn from_i64(x: i64) -> Option<Self> {
-        usize::try_from(x).ok()
+        Some(x as usize)
     }
     fn to_i64(self) -> i64 {
         self as i64
@@ -390,8 +395,21 @@ macro_rules! generic_reprs {
             Repr::GenEnc => Some(enc_only::<_, $Sy, $Prob, $P>(m.to_generic_encoder_model())),
             Repr::GenDec => Some(dec_only::<_, $Sy, $Prob, $P>(m.to_generic_decoder_model())),
             Repr::GenLookup => generic_reprs!(@lookup $lookup, m, $Sy, $Prob, $P),
-            Repr::NonContig => {
-                let table: Vec<_> = m.symbol_table().collect();
+            Repr::NonContig | Repr::NonContigPaged => {
+                let table: Vec<_> = if $repr == Repr::NonContigPaged {
+                    let n = m.symbol_table().count();
+                    let k = (n / 2).max(1);
+                    let mut t: Vec<_> = m.symbol_table().take(k).collect();
+                    t.extend(m.symbol_table().skip(k));
+                    // every second entry again through `step_by`, which must agree
+                    let even: Vec<_> = m.symbol_table().step_by(2).collect();
+                    if even.len() != (n + 1) / 2 || even.iter().enumerate().any(|(i, e)| e.0 != t[2 * i].0 || e.1 != t[2 * i].1) {
+                        return None;
+                    }
+                    t
+                } else {
+                    m.symbol_table().collect()
+                };
                 let syms: Vec<$Sy> = table.iter().map(|t| t.0).collect();
                 let probs: Vec<$Prob> = table.iter().map(|t| t.2.get()).collect();
                 let e = NonContiguousCategoricalEncoderModel::<$Sy, $Prob, $P>::from_symbols_and_nonzero_fixed_point_probabilities(
